@@ -165,10 +165,7 @@ func (w *World) requestTuple(v ssa.Value, fn *ssa.Function) (bool, string) {
 	if lit == nil {
 		return false, "not a FiveTuple literal: " + w.key(v)
 	}
-	root := fn
-	for root.Parent() != nil {
-		root = root.Parent()
-	}
+	root := w.bodyRoot(fn)
 	if len(root.Params) == 0 {
 		return false, "enclosing function has no request parameter"
 	}
@@ -201,7 +198,7 @@ func ruleAllocFromOwnTuple(c *Ctx, rule string, handlers []string) {
 	for _, h := range handlers {
 		fn := w.Func("server", "", h)
 		n := 0
-		for _, f := range withAnon(fn) {
+		for _, f := range w.helpersOf(fn) {
 			w.eachInstr(f, func(in ssa.Instruction) {
 				ci, ok := in.(ssa.CallInstruction)
 				if !ok {
@@ -303,10 +300,7 @@ func ruleInstallSinks(c *Ctx, rule string) {
 				c.Undecided(rule, fname(fn), s.construct, pos, "cannot identify the IP of the installed address "+w.key(addr))
 				continue
 			}
-			root := fn
-			for root.Parent() != nil {
-				root = root.Parent()
-			}
+			root := w.bodyRoot(fn)
 			reqKey := w.key(root.Params[0])
 			g := w.guardedBy(cs, grant, -1, "nil", func(g *ssa.Call) bool {
 				return w.key(g.Call.Args[0]) == reqKey+".AllocationManager" && w.key(g.Call.Args[1]) == reqKey+".SrcAddr" && w.key(g.Call.Args[2]) == ipKey
@@ -752,7 +746,41 @@ func ruleInstalledAddrFresh(c *Ctx, rule string) {
 			case *ssa.FreeVar:
 				c.Bad(rule, fname(fn), target.Name()+" address", w.instrPos(cs), "the installed IP is read from a PeerAddress variable captured from the enclosing function ("+b.Name()+"): it is shared by every decode of this request, and the decoder re-uses the IP's backing array, so a later XOR-PEER-ADDRESS overwrites the address held by the permission installed earlier (which then never expires under its own key)")
 			default:
-				c.Bad(rule, fname(fn), target.Name()+" address", w.instrPos(cs), "the installed IP is read from shared storage "+w.key(base))
+				// shared storage is fine when every decode starts from the zero value: the
+				// decoder then allocates a fresh IP instead of re-using the previous backing
+				// array. Required: in this function a store of the zero PeerAddress into that
+				// storage dominates the decode call (GetFrom / GetFromAs on its address), which
+				// dominates the install.
+				okZero := false
+				var zeroSt ssa.Instruction
+				w.eachInstr(fn, func(in ssa.Instruction) {
+					st, isSt := in.(*ssa.Store)
+					if !isSt || !w.sameKey(st.Addr, base) {
+						return
+					}
+					if cst, isC := st.Val.(*ssa.Const); isC && cst.Value == nil {
+						zeroSt = in
+					}
+				})
+				if zeroSt != nil {
+					w.eachInstr(fn, func(in ssa.Instruction) {
+						call, isC := in.(*ssa.Call)
+						if !isC || call.Call.StaticCallee() == nil || len(call.Call.Args) == 0 {
+							return
+						}
+						if n := call.Call.StaticCallee().Name(); n != "GetFrom" && n != "GetFromAs" {
+							return
+						}
+						if w.sameKey(call.Call.Args[0], base) && instrDominates(zeroSt, call) && instrDominates(call, cs) {
+							okZero = true
+						}
+					})
+				}
+				if okZero {
+					c.OK(rule, fname(fn), target.Name()+" address", w.instrPos(cs), "the decode target is reset to the zero value before every decode: the decoder allocates a fresh IP each time")
+				} else {
+					c.Bad(rule, fname(fn), target.Name()+" address", w.instrPos(cs), "the installed IP is read from shared storage "+w.key(base))
+				}
 			}
 		}
 	}
